@@ -10,11 +10,11 @@
  R5 centring subtracts the mean over all rows passed in (no row filter);
  R6 levels not selected by the user are pooled into 'other' before the dummy expansion (skipped when 'all' is selected);
  R7 per-state feature copies only for states that have reporting rows;
- R9 a caller that fits on a subset of the reporting rows (interval regressions: the training rows) marks the remaining reporting
+ R11 a caller that fits on a subset of the reporting rows (interval regressions: the training rows) marks the remaining reporting
     rows as rows to predict on before the matrix is prepared, so the featurizer's fitting rows are the rows that are fit;
  R8 callers slice the prepared matrix with the same bounds as the frames it was built from (bootstrap model and strata; the
     conformal callers are decided in C04.R6 / C05.R3);
- R10 typestate: prepare_data is called exactly once per Featurizer object (it appends to the feature lists).
+ R9 typestate: prepare_data is called exactly once per Featurizer object (it appends to the feature lists).
 Observation (no rule): _get_categories_for_fe tests startswith(fe) while the expansion uses startswith(fe + '_'); they differ only
 if one fixed-effect name is a prefix of another.
 """
@@ -322,7 +322,7 @@ def check(ctx):
     ctx.ob("C16.R9.model", "BootstrapElectionModel|self.featurizer prepared only by the run-once bootstrap", [g.name for g in users] == ["compute_bootstrap_errors"],
            cf.where(), f"self.featurizer.prepare_data is called in {[g.name for g in users]}")
 
-    # ---- R9 fitting rows of the featurizer = rows that are fitted ------------------------------------------------
+    # ---- R11 fitting rows of the featurizer = rows that are fitted ------------------------------------------------
     # The featurizer decides which dummies are "active" on the rows it regards as fitting rows (reporting & expected, R3).  A caller
     # that fits on a SUBSET of the reporting rows (the conformal interval regressions: the first train_rows of the shuffled reporting
     # units, the rest calibrate) has to mark the other reporting rows as rows to predict on before the matrix is prepared -
@@ -336,7 +336,7 @@ def check(ctx):
         for x in ir.walk(t_):
             if x[0] == "call" and x[1][0] == "attr" and x[1][2] == "prepare_data" and x not in preps:
                 preps.append(x)
-    ctx.sites("C16.R9", len(preps), 1, "prepare_data call of the interval regressions")
+    ctx.sites("C16.R11", len(preps), 1, "prepare_data call of the interval regressions")
     fits_ = [x for _, x, _ in bs.effects if x[0] == "call" and x[1] == _A("fit_model")]
     for x in preps:
         arg = x[2][0]
@@ -358,5 +358,5 @@ def check(ctx):
                     detail = "rows train_rows .. n_train (the calibration rows) are marked reporting = 0 before prepare_data: fitting rows = fitted rows"
                 else:
                     detail = f"holdout mark is {ir.show(arg[3], maxdepth=4)[:160]}: not 'reporting := 0 on rows [train_rows : n_train]'"
-        ctx.ob("C16.R9.fitting-rows", f"{bf.qualname}|featurizer fitting rows = the rows that are fit", ok9, bf.where(), detail)
+        ctx.ob("C16.R11.fitting-rows", f"{bf.qualname}|featurizer fitting rows = the rows that are fit", ok9, bf.where(), detail)
 
